@@ -107,7 +107,26 @@ func c04Reference(c *vlib.Ctx, name string) *c04Ref {
 }
 
 // c04Compare checks the recovered snapshot R against the live snapshots around the crash.
-func c04Compare(R, before, after map[string]string, atomicOp bool) (bad []string) {
+func c04Compare(R, before, after map[string]string, atomicOp bool, rewrites string) (bad []string) {
+	// an interrupted multi-write operation on an instance with unversioned properties (ROI / image extents) may leave those
+	// properties and every version's reads of that instance in an intermediate state: take them out of the comparison
+	dropInst := func(s string) string {
+		if atomicOp || rewrites == "" {
+			return s
+		}
+		var m map[string]interface{}
+		if json.Unmarshal([]byte(s), &m) != nil {
+			return s
+		}
+		if di, ok := m["DataInstances"].(map[string]interface{}); ok {
+			if e, ok := di[rewrites].(map[string]interface{}); ok {
+				delete(e, "Extended")
+				delete(e, "Extents")
+			}
+		}
+		b, _ := json.Marshal(m)
+		return string(b)
+	}
 	keys := map[string]bool{}
 	for k := range before {
 		keys[k] = true
@@ -138,6 +157,14 @@ func c04Compare(R, before, after map[string]string, atomicOp bool) (bad []string
 		if strings.HasPrefix(k, "repo:node-v") && strings.Contains(k, "probe") {
 			continue
 		}
+		if !atomicOp && rewrites != "" {
+			if strings.HasPrefix(k, "data:"+rewrites+"@") {
+				continue
+			}
+			if strings.HasPrefix(k, "repo:") {
+				r, b, a = dropInst(r), dropInst(b), dropInst(a)
+			}
+		}
 		if r != b {
 			sideB = false
 		}
@@ -167,7 +194,7 @@ func c04Compare(R, before, after map[string]string, atomicOp bool) (bad []string
 }
 
 func runC04(c *vlib.Ctx) {
-	names := []string{"repo", "kv", "labelmap", "annotation", "neuronjson", "delete", "ids"}
+	names := []string{"repo", "kv", "labelmap", "annotation", "neuronjson", "delete", "ids", "roi", "imageblk", "sync"}
 	ws := wlWorkloads()
 	refs := make([]*c04Ref, len(names))
 	vlib.Par(len(names), 8, func(i int) { refs[i] = c04Reference(c, names[i]) })
@@ -276,7 +303,7 @@ func runC04(c *vlib.Ctx) {
 		if acked+1 < len(ref.snaps) {
 			after = ref.snaps[acked+1]
 		}
-		for _, comp := range c04Compare(R, before, after, atomicOp) {
+		for _, comp := range c04Compare(R, before, after, atomicOp, w.Rewrites) {
 			c.Violate("crash:"+cls+":"+wlCompClass(comp), fmt.Sprintf("workload %s killed %s write #%d with %d ops acknowledged and %s in flight: after restart %s is neither the acknowledged state nor the completed operation's: recovered %s | acknowledged %s | completed %s",
 				name, j.when, j.n, acked, inflight, comp, trunc(R[comp], 300), trunc(before[comp], 300), trunc(after[comp], 300)), rep)
 		}
